@@ -314,6 +314,10 @@ func visitInstr(fr *frame, instr ssa.Instruction) continuation {
 
 	case *ssa.Go:
 		fn, args := prepareCall(fr, &instr.Call)
+		if fr.i.path != nil && fr.fn != nil {
+			// engine generated reach marker: which code started a goroutine on this path
+			fr.i.path.reached["go:"+fr.fn.String()] = true
+		}
 		fr.i.sched.spawn(fn, args, fr.i.prog.Fset.Position(instr.Pos()).String())
 
 	case *ssa.MakeChan:
